@@ -77,6 +77,14 @@ func startConcurrent(r *common.Run) *concRun {
 		var out bytes.Buffer
 		cmd.Stdout, cmd.Stderr = &out, os.Stderr
 		if err := cmd.Run(); err != nil {
+			if fl := firstLineOf(out.String()); strings.Contains(fl, "NONDETERMINISM") {
+				// the code under test keeps state in package-level variables that survives between executions of
+				// one process: schedules cannot be replayed, so this part cannot explore it. The sequential part
+				// (fresh store per case, same process) still gives its verdict; the run is reported as capped.
+				c.skip = "not explorable on this tree: executions are not reproducible (" + fl[:min(len(fl), 160)] + ")"
+				r.SetCapped()
+				return
+			}
 			common.Machinery("concurrent part (%s): %v: %s", bin, err, firstLineOf(out.String()))
 		}
 		var rep concReport
